@@ -89,6 +89,13 @@ class ModuleInfo:
         self.path = path
         self.src = src
         self.tree = ast.parse(src, filename=path)
+        self.inlined = []
+        try:
+            from . import inline
+
+            self.tree, self.inlined = inline.apply(self.tree, name)
+        except RecursionError:  # pragma: no cover
+            self.tree = ast.parse(src, filename=path)
         self.digest = hashlib.sha256(src.encode("utf-8")).hexdigest()[:16]
         self.funcs = []  # all FuncInfo (any depth)
         self.classes = {}  # name -> ClassDef (module level; live arm preferred)
